@@ -43,6 +43,9 @@ def make_sync_manager(channel, write_only=False, logger=None,
             self.pending = []            # indices not yet released to us
             self.inbox = queue.Queue()
             self.idle = threading.Event()
+            self.cv = threading.Condition()
+            self._busy = False
+            self.done_count = 0
             self.consumed = []
             self.listen_calls = 0
             self.listen_faults = listen_faults if listen_faults is not None \
@@ -63,44 +66,64 @@ def make_sync_manager(channel, write_only=False, logger=None,
                 raise SystemExit
             self.listen_calls += 1
             while True:
+                # coming back here means the message handed out before (if
+                # any) has been processed completely
+                with self.cv:
+                    if self._busy:
+                        self._busy = False
+                        self.done_count += 1
+                    self.cv.notify_all()
                 self.idle.set()
                 item = self.inbox.get()
                 if item is StopIteration:
                     self._stopped = True
                     return
                 idx, raw = item
+                with self.cv:
+                    self._busy = True
                 if idx in self.listen_faults:
                     self.listen_faults.discard(idx)
                     # the backend's iterator fails; the message itself is
                     # redelivered after the restart, as a broker would
+                    with self.cv:
+                        self._busy = False
                     self.inbox.put((idx, raw))
                     raise ConnectionError('injected listen failure')
                 self.consumed.append(idx)
                 yield raw
 
         # harness side ----------------------------------------------------
+        def _hand_over(self, item, timeout):
+            """Give one item to the listener and wait until it has been
+            processed (the listener came back for the next one) - counted,
+            so that a listener that has not even started yet cannot be
+            mistaken for one that is done."""
+            with self.cv:
+                target = self.done_count + 1
+            self.idle.clear()
+            self.inbox.put(item)
+            waited = 0.0
+            with self.cv:
+                while self.done_count < target:
+                    self.cv.wait(0.05)
+                    waited += 0.05
+                    t = getattr(self, 'thread', None)
+                    if (t is not None and not t.is_alive()) or \
+                            waited > timeout:
+                        raise TimeoutError('listener did not come back')
+
         def release_one(self, timeout=10):
             """Hand the next pending channel message to the listener and wait
             until it has been processed."""
             if not self.pending:
                 return None
             idx = self.pending.pop(0)
-            self.idle.clear()
-            self.inbox.put((idx, self.chan.log[idx]))
-            if not self.idle.wait(timeout):
-                raise TimeoutError('listener did not come back')
+            self._hand_over((idx, self.chan.log[idx]), timeout)
             return idx
 
         def inject(self, raw, timeout=10):
             """Put an arbitrary raw message on this host's inbox only."""
-            self.idle.clear()
-            self.inbox.put((-1, raw))
-            waited = 0.0
-            while not self.idle.wait(0.05):
-                waited += 0.05
-                t = getattr(self, 'thread', None)
-                if (t is not None and not t.is_alive()) or waited > timeout:
-                    raise TimeoutError('listener did not come back')
+            self._hand_over((-1, raw), timeout)
 
         def stop(self):
             self.inbox.put(StopIteration)
